@@ -105,6 +105,7 @@ Example C06_set_monitor_hypothesis_satisfiable :
   map (fun s => let '(cs, co, _, _) := s in (find_cond cs CInTransition, co)) (statuses (set_obs_s x_nsfull_case (SetCorr.model_run x_nsfull_case)))
   = [(None, [x_key 1 1])].
 Proof. exact m06_hypothesis_satisfiable. Qed.
+Print Assumptions C06_set_monitor_hypothesis_satisfiable.
 
 (** The delegated part of the C06 check (m06d = C15Corr.m_relay && C15Corr.m_own: Available=True newly reported only
     from phase objects obtained in this pass that are Available for their own generation, controlled by the ObjectSet
@@ -134,3 +135,4 @@ Example C06_set_monitor_delegated_hypothesis_satisfiable :
   phase_objects_carried x_carried_case = true /\
   map (fun s => let '(cs, _, _, _) := s in cond_true cs CAvailable) (statuses (set_obs_s x_carried_case (SetCorr.model_run x_carried_case))) = [true].
 Proof. exact m06d_hypothesis_satisfiable. Qed.
+Print Assumptions C06_set_monitor_delegated_hypothesis_satisfiable.
